@@ -431,3 +431,20 @@ def _substructure_rows(V):
         return
     V.ensure("sub/selected-atoms-moved-by-both-translations", z3.And(*[Z(co[r][k]) == Z(before[id(atoms[r + 1])][k]) + Z(v1[k]) + Z(v2[k]) for r in (1, 2) for k in range(3)]))
     V.ensure("sub/unselected-atom-not-moved", z3.And(*[Z(co[0][k]) == Z(before[id(atoms[1])][k]) for k in range(3)]))
+
+
+# ------------------------------------------------------------------------------------------ bounded stand-in (real code, CPython)
+P.bounded_in_quick = True       # ~3 s: also runs in the quick tier (reported as bounded, never as proved)
+
+
+@P.bounded_standin("dihedral / rotate_dihedral / rotation_matrix_from_vectors on exactly degenerate and random geometries (real code under CPython)",
+                   "5 exactly degenerate 4-5 atom chains (coplanar anti / syn, perpendicular) + 40 random chains x 6 target angles; 31 x 37 vector pairs incl. exactly and nearly (anti)parallel ones x 2 tolerances; numeric tolerance 1e-6")
+def _bounded(seed):
+    import subprocess, json, os
+    here = os.path.dirname(os.path.dirname(os.path.abspath(__file__)))
+    r = subprocess.run(["/venv/bin/python", os.path.join(here, "replay", "C11.py"), "--bounded", str(seed)], capture_output=True, text=True, timeout=3000,
+                       env={**os.environ, "PYTHONPATH": os.environ.get("PYVC_REPO", "/repo")})
+    try:
+        return json.loads(r.stdout.strip().splitlines()[-1])
+    except Exception:
+        return {"error": (r.stdout + r.stderr)[-500:]}
